@@ -470,7 +470,7 @@ def gen_leaf(rng, Vt, kinds=None):
         if r < 0.4:
             t = ("typed", pick_cls())
         elif r < 0.6:
-            ms = [s for s in subterms(Vt) if s[0] not in ("many", "any")]
+            ms = [s for s in subterms(Vt) if s[0] not in ("many", "any")] or [("typed", pick_cls())]
             t = rng.choice(ms)
         else:
             t = G.norm_term(G.gen_ty(rng, 1))
@@ -544,7 +544,7 @@ def gen_triples(ctx):
                 continue
             out.append((Vt, c))
     depth = ctx.n(2, 3)
-    for _ in range(ctx.n(2500, 30000)):
+    for _ in range(ctx.n(2500, 70000)):
         Vt = G.norm_term(G.gen_ty(rng, depth, allow_any=rng.random() < 0.1))
         if Vt[0] == "many":
             continue
@@ -755,6 +755,11 @@ def evaluate(ctx, triples, with_model=True, replaying=False):
             names = [x for x in d.split(",") if x != "-"]
             cls = names[0] if names else None
             model_lost = bits[3] == "0"
+        if model_lost is False and unmodelled(triples[i][0], triples[i][1]):
+            # value-dependent protocol region (see ASSUMPTIONS): the table-driven assignability model does not apply, the
+            # failing input cannot be classified against it; counted, not reported
+            ctx.tag("keeps_unclassified_protocol_region")
+            continue
         ctx.candidate(dict(case, polarity=pol, object=repr(py), obj=o, driver=l),
                       "the object belongs to the declared type and the condition evaluates to %s for it, but it does not belong to the "
                       "type inferred in that branch" % bool(pol), cls=cls, conforms=conf and (model_lost is not False), stream="keeps")
@@ -887,7 +892,7 @@ ARITY = [None]
 
 def e2e(ctx, triples, impl, model, checker, with_model):
     """The same triples through the checker: reveal_type(x) before the test and in both branches."""
-    budget = ctx.n(900, 6000)
+    budget = ctx.n(900, 12000)
     chosen = []
     ARITY[0] = V.class_table(checker)["arity"]
     sized = PV.TypedValue(V.CLASSES[G.SIZED])
@@ -1003,6 +1008,9 @@ def e2e(ctx, triples, impl, model, checker, with_model):
         if " D=" in l:
             names = [x for x in l.split(" D=")[1].split(",") if x != "-"]
             cls = names[0] if names else None
+            if l[3] == "1" and unmodelled(case["V"], c):
+                ctx.tag("keeps_unclassified_protocol_region")
+                continue
         ctx.candidate(dict(case, polarity=pol, object=repr(py), obj=o, driver=l,
                            program="def f(x: %s):\n    if %s: reveal_type(x)\n    else: reveal_type(x)" % (case["type"], text)),
                       "end to end: the object belongs to the declared type and the condition evaluates to %s for it, but it does "
